@@ -162,7 +162,7 @@ def program_strategy():
             st.builds(lambda x: {'op': 'append', 'items': [x]}, item),
             st.builds(lambda xs: {'op': 'extend', 'items': xs}, st.lists(item, max_size=3)),
             st.builds(lambda how: {'op': 'serialise', 'how': how}, st.sampled_from(['to_json', 'JSONEncoder', 'server.JSONEncoder'])),
-            st.just({'op': 'read'}),
+            st.just({'op': 'read'}), st.just({'op': 'compare'}),
         )
         return st.builds(build, st.just(target), st.lists(item, max_size=3), st.lists(op, min_size=1, max_size=6))
 
@@ -192,7 +192,7 @@ class C05(Check):
         "fields, the expected error class, and an identical second to_json. non-trivial = non-scalar payload, or an edge (null result, "
         "null/absent data, empty params, code 0, empty message, id 0 or ''), or a batch of >= 2; distinct = distinct case spec. "
         "batch_program cases: ONE BatchRequest / BatchResponse object taken through a history of append / extend / serialise (three encoders) / "
-        "read steps; at every serialisation and at the end the wire form must be the reference form of exactly the elements added so far "
+        "read / compare-with-another-batch steps; at every serialisation and at the end the wire form must be the reference form of exactly the elements added so far "
         "(non-trivial = the batch grew after it had been serialised). late_class cases: a code is deserialised, then a class is defined for it "
         "(a fresh code, one of the library's, one of the application's), then it is deserialised again - the class registered by then is the result (the registry is restored afterwards)."
     )
@@ -205,7 +205,7 @@ class C05(Check):
     required_classes = ['request', 'response/result', 'response/error', 'error', 'batch_request', 'batch_response', 'batch_error',
                         'error_cls/PlainBase', 'error_cls/IndepBase', 'error_cls/CodedBase', 'edge/null-result', 'edge/absent-data', 'edge/null-data',
                         'edge/empty-params', 'edge/code-0', 'edge/empty-message', 'batch_request/empty', 'batch_program/request', 'batch_program/response',
-                        'batch_program/grown-after-serialisation', 'batch_program/not-strict', 'late-class']
+                        'batch_program/grown-after-serialisation', 'batch_program/not-strict', 'batch_program/compared', 'late-class']
 
     def strategy(self, tier: str):
         ecls = st.sampled_from(ERROR_CLS)
@@ -245,6 +245,9 @@ class C05(Check):
                 {'op': 'append', 'items': [{'method': 'o', 'params': none, 'id': None}]}, {'op': 'read'}]},
             {'kind': 'batch_program', 'target': 'request', 'strict': False, 'initial': [{'method': 'm', 'params': none, 'id': 1}, {'method': 'n', 'params': none, 'id': None}],
              'ops': [{'op': 'read'}, {'op': 'append', 'items': [{'method': 'o', 'params': none, 'id': 'x'}]}, {'op': 'read'}]},
+            {'kind': 'batch_program', 'target': 'request', 'initial': [{'method': 'm', 'params': none, 'id': 3}, {'method': 'n', 'params': none, 'id': 1}, {'method': 'o', 'params': none, 'id': 2}],
+             'ops': [{'op': 'compare'}, {'op': 'serialise', 'how': 'to_json'}, {'op': 'read'}]},
+            {'kind': 'batch_program', 'target': 'response', 'initial': [{'id': 'b', 'result': 1}, {'id': 'a', 'result': 2}], 'ops': [{'op': 'compare'}, {'op': 'read'}]},
             {'kind': 'batch_program', 'target': 'response', 'initial': [], 'ops': [
                 {'op': 'serialise', 'how': 'server.JSONEncoder'}, {'op': 'append', 'items': [{'id': 1, 'result': None}]}, {'op': 'serialise', 'how': 'to_json'},
                 {'op': 'extend', 'items': [{'id': 2, 'result': 1}, {'id': 3, 'error': {'cls': 'JsonRpcError', 'code': 5, 'message': 'm', 'data': {'absent': True}}}]}]},
@@ -265,6 +268,7 @@ class C05(Check):
         discs: List[Disc] = []
         serialised_before_growth = False
         serialised = False
+        compared = [False]
 
         def check(step: Any, how: str) -> None:
             try:
@@ -290,6 +294,20 @@ class C05(Check):
                 model += [wire(x) for x in o['items']]
                 if o['items']:
                     serialised_before_growth = serialised_before_growth or serialised
+            elif o['op'] == 'compare':
+                # comparing a batch with another one is a READ-ONLY operation (only that is asserted: what == answers is not part
+                # of the property - on the pinned tree it sorts by id and raises TypeError for ids of mixed types / notifications)
+                same = cls(*[build(x) for x in spec['initial']], strict=spec.get('strict', True))
+                for later in spec['ops'][:n]:
+                    if later['op'] in ('append', 'extend'):
+                        same.extend([build(x) for x in later['items']])
+                for other in (same, cls()):
+                    try:
+                        obj == other      # noqa: B015
+                        obj != other      # noqa: B015
+                    except TypeError:
+                        pass
+                compared[0] = True
             elif o['op'] == 'serialise':
                 check(n, o['how'])
                 serialised = True
@@ -304,6 +322,8 @@ class C05(Check):
         check('end', 'to_json')
         check('end', 'JSONEncoder')
         classes = ['batch_program', f'batch_program/{target}'] + ([] if spec.get('strict', True) else ['batch_program/not-strict'])
+        if compared[0] and len(model) >= 2:
+            classes.append('batch_program/compared')
         if serialised_before_growth:
             classes.append('batch_program/grown-after-serialisation')
         return Outcome(discs, serialised_before_growth, classes)
